@@ -257,6 +257,11 @@ fn inside<T>(c: &T, addr: usize, sz: usize) {
         fault(format!("OUTSIDE reference {:#x} is not inside the container value", addr));
     }
 }
+fn inside_range(base: usize, size: usize, addr: usize, sz: usize) {
+    if !(addr >= base && addr + sz <= base + size) {
+        fault(format!("OUTSIDE a closure received a reference {:#x} that is not inside the container value", addr));
+    }
+}
 fn slot_of_val<const N: usize>(m: &Map<Key, Val, N>, addr: usize) -> u64 {
     inside(m, addr, mem::size_of::<Val>());
     m.iter().position(|(_, v)| v as *const Val as usize == addr).map(|i| i as u64).unwrap_or(9999)
@@ -357,7 +362,12 @@ fn map_op<const N: usize>(m: &mut Map<Key, Val, N>, op: &[u64], o: &mut Out) {
         31 => { let (q, _) = parse_q(&op[2..]);
                 let r = counted(|| with_q!(&q, x => m.remove_entry(x))); opt_pair(r, o); caller_drop(q); }
         32 => { let dflt = op[2]; let tab = parse_tab(op[3], &op[4..]);
-                counted(|| m.retain(|k, v| { call_tick();
+                let (base, size) = (m as *const Map<Key, Val, N> as usize, mem::size_of::<Map<Key, Val, N>>());
+                counted(|| m.retain(|k, v| {
+                    // the references a predicate receives point into the container itself (C06)
+                    inside_range(base, size, k as *const Key as usize, mem::size_of::<Key>());
+                    inside_range(base, size, v as *const Val as usize, mem::size_of::<Val>());
+                    call_tick();
                     match lookup_act(k.cls.0, &tab, dflt) { 0 => false, 1 => true, _ => { v.dat += 100; true } } })); }
         33 => { counted(|| m.clear()); }
         34 => { let (take, fate) = (op[2], op[3]);
@@ -379,6 +389,17 @@ fn map_op<const N: usize>(m: &mut Map<Key, Val, N>, op: &[u64], o: &mut Out) {
                 let old = mem::replace(m, fresh); drop(old); }
         40 => iter_session(m, op[2], op[3], op[4], o),
         41 => into_session(m, op[2], op[3], op[4], o),
+        42 => iter_nth_session(m, op[2], op[3], op[4], o),
+        43 => { let (pre, nk) = (op[2], op[3] as usize);
+                let mut d = counted(|| m.drain());
+                for _ in 0..pre { if let Some(p) = counted(|| d.next()) { caller_drop(p); } }
+                o.push(d.len() as u64);
+                match counted(|| d.nth(nk)) { None => o.push(0), Some((k, v)) => { o.push(1); r_pair(&k, &v, o); caller_drop((k, v)); } }
+                o.push(d.len() as u64);
+                match counted(|| d.next()) { None => o.push(0), Some((k, v)) => { o.push(1); r_pair(&k, &v, o); caller_drop((k, v)); } }
+                o.push(d.len() as u64);
+                counted(|| drop(d)); }
+        44 => into_nth_session(m, op[2], op[3], op[4] as usize, o),
         50 => entry_chain(m, op, o),
         51 => { let (u, wd, n) = (op[2] == 1, op[3], op[4] as usize);
                 let cs: Vec<Cls> = op[5..5 + n].iter().map(|c| Cls(*c)).collect();
@@ -477,6 +498,51 @@ fn iter_session<const N: usize>(m: &mut Map<Key, Val, N>, kind: u64, steps: u64,
     }
 }
 
+fn iter_nth_session<const N: usize>(m: &mut Map<Key, Val, N>, kind: u64, pre: u64, nk: u64, o: &mut Out) {
+    let nk = nk as usize;
+    let mut patch: Vec<(usize, usize)> = Vec::new();
+    macro_rules! shared { ($it:ident, $render:expr) => {{
+        for _ in 0..pre { let _ = counted(|| $it.next()); }
+        o.push($it.len() as u64);
+        match counted(|| $it.nth(nk)) { None => o.push(0), Some(x) => { o.push(1); $render(x, o); } }
+        o.push($it.len() as u64);
+        match counted(|| $it.next()) { None => o.push(0), Some(x) => { o.push(1); $render(x, o); } }
+        o.push($it.len() as u64);
+    }}; }
+    match kind {
+        0 => { let mut it = counted(|| m.iter());
+               shared!(it, |(k, v): (&Key, &Val), o: &mut Out| { o.push(slot_of_val(m, v as *const Val as usize)); r_pair(k, v, o); }) }
+        2 => { let mut it = counted(|| m.keys());
+               shared!(it, |k: &Key, o: &mut Out| { o.push(slot_of_key(m, k as *const Key as usize)); r_key(k, o); }) }
+        3 => { let mut it = counted(|| m.values());
+               shared!(it, |v: &Val, o: &mut Out| { o.push(slot_of_val(m, v as *const Val as usize)); r_val(v, o); }) }
+        1 => { { let mut it = counted(|| m.iter_mut());
+                 shared!(it, |(k, v): (&Key, &mut Val), o: &mut Out| { patch.push((o.len(), v as *mut Val as usize)); o.push(0); r_pair(k, v, o); }) }
+               for (i, a) in patch { o[i] = slot_of_val(m, a); } }
+        _ => { { let mut it = counted(|| m.values_mut());
+                 shared!(it, |v: &mut Val, o: &mut Out| { patch.push((o.len(), v as *mut Val as usize)); o.push(0); r_val(v, o); }) }
+               for (i, a) in patch { o[i] = slot_of_val(m, a); } }
+    }
+}
+
+fn into_nth_session<const N: usize>(m: &mut Map<Key, Val, N>, kind: u64, pre: u64, nk: usize, o: &mut Out) {
+    let old = mem::replace(m, Map::new());
+    macro_rules! run { ($it:ident, $render:expr) => {{
+        for _ in 0..pre { if let Some(x) = counted(|| $it.next()) { caller_drop(x); } }
+        o.push($it.len() as u64);
+        match counted(|| $it.nth(nk)) { None => o.push(0), Some(x) => { o.push(1); $render(&x, o); caller_drop(x); } }
+        o.push($it.len() as u64);
+        match counted(|| $it.next()) { None => o.push(0), Some(x) => { o.push(1); $render(&x, o); caller_drop(x); } }
+        o.push($it.len() as u64);
+        counted(|| drop($it));
+    }}; }
+    match kind {
+        0 => { let mut it = counted(|| old.into_iter()); run!(it, |p: &(Key, Val), o: &mut Out| r_pair(&p.0, &p.1, o)) }
+        1 => { let mut it = counted(|| old.into_keys()); run!(it, |k: &Key, o: &mut Out| r_key(k, o)) }
+        _ => { let mut it = counted(|| old.into_values()); run!(it, |v: &Val, o: &mut Out| r_val(v, o)) }
+    }
+}
+
 fn into_session<const N: usize>(m: &mut Map<Key, Val, N>, kind: u64, take: u64, fate: u64, o: &mut Out) {
     let old = mem::replace(m, Map::new());
     macro_rules! finish { ($it:ident) => {{
@@ -526,7 +592,10 @@ fn entry_chain<const N: usize>(m: &mut Map<Key, Val, N>, op: &[u64], o: &mut Out
         2 => { let r = counted(|| m.entry(k).or_insert_with_key(|_| { call_tick(); Val::new(c, d) })); refres = grab(0, r); }
         3 => { let r = counted(|| m.entry(k).or_default()); refres = grab(0, r); }
         4 => { let v = Val::new(c, d);
-               let r = counted(|| m.entry(k).and_modify(|x| { call_tick(); x.dat += 100; }).or_insert(v)); refres = grab(0, r); }
+               let (base, size) = (m as *const Map<Key, Val, N> as usize, mem::size_of::<Map<Key, Val, N>>());
+               let r = counted(|| m.entry(k).and_modify(|x| {
+                   inside_range(base, size, x as *const Val as usize, mem::size_of::<Val>());
+                   call_tick(); x.dat += 100; }).or_insert(v)); refres = grab(0, r); }
         5 => { let e = counted(|| m.entry(k));
                let occupied = matches!(e, Entry::Occupied(_));
                { let kk = e.key();
@@ -580,7 +649,10 @@ fn set_op<const N: usize>(s: &mut Set<Key, N>, op: &[u64], o: &mut Out) {
         131 => { let (q, _) = parse_q(&op[2..]);
                  let r = counted(|| with_q!(&q, x => s.take(x))); opt_key(r, o); caller_drop(q); }
         132 => { let dflt = op[2]; let tab = parse_tab(op[3], &op[4..]);
-                 counted(|| s.retain(|k| { call_tick(); lookup_act(k.cls.0, &tab, dflt) != 0 })); }
+                 let (base, size) = (s as *const Set<Key, N> as usize, mem::size_of::<Set<Key, N>>());
+                 counted(|| s.retain(|k| {
+                     inside_range(base, size, k as *const Key as usize, mem::size_of::<Key>());
+                     call_tick(); lookup_act(k.cls.0, &tab, dflt) != 0 })); }
         133 => { counted(|| s.clear()); }
         134 => { let (take, fate) = (op[2], op[3]);
                  let mut d = counted(|| s.drain());
@@ -618,6 +690,35 @@ fn set_op<const N: usize>(s: &mut Set<Key, N>, op: &[u64], o: &mut Out) {
                  else if fate == 2 { let mut cnt = 0u64;
                      counted(|| it.for_each(|p| { call_tick(); cnt += 1; caller_drop(p); })); o.push(cnt); }
                  else { leak_ok(); mem::forget(it); } }
+        142 => { let (pre, nk) = (op[2], op[3] as usize);
+                 let mut it = counted(|| s.iter());
+                 for _ in 0..pre { let _ = counted(|| it.next()); }
+                 o.push(it.len() as u64);
+                 match counted(|| it.nth(nk)) { None => o.push(0), Some(k) => { o.push(1);
+                     o.push(slot_of_skey(s, k as *const Key as usize).unwrap_or(9999)); r_key(k, o); } }
+                 o.push(it.len() as u64);
+                 match counted(|| it.next()) { None => o.push(0), Some(k) => { o.push(1);
+                     o.push(slot_of_skey(s, k as *const Key as usize).unwrap_or(9999)); r_key(k, o); } }
+                 o.push(it.len() as u64); }
+        143 => { let (pre, nk) = (op[2], op[3] as usize);
+                 let mut d = counted(|| s.drain());
+                 for _ in 0..pre { if let Some(k) = counted(|| d.next()) { caller_drop(k); } }
+                 o.push(d.len() as u64);
+                 match counted(|| d.nth(nk)) { None => o.push(0), Some(k) => { o.push(1); r_key(&k, o); caller_drop(k); } }
+                 o.push(d.len() as u64);
+                 match counted(|| d.next()) { None => o.push(0), Some(k) => { o.push(1); r_key(&k, o); caller_drop(k); } }
+                 o.push(d.len() as u64);
+                 counted(|| drop(d)); }
+        144 => { let (pre, nk) = (op[2], op[3] as usize);
+                 let old = mem::replace(s, Set::new());
+                 let mut it = counted(|| old.into_iter());
+                 for _ in 0..pre { if let Some(k) = counted(|| it.next()) { caller_drop(k); } }
+                 o.push(it.len() as u64);
+                 match counted(|| it.nth(nk)) { None => o.push(0), Some(k) => { o.push(1); r_key(&k, o); caller_drop(k); } }
+                 o.push(it.len() as u64);
+                 match counted(|| it.next()) { None => o.push(0), Some(k) => { o.push(1); r_key(&k, o); caller_drop(k); } }
+                 o.push(it.len() as u64);
+                 counted(|| drop(it)); }
         162 => { let arr = op[2] == 1; let n = op[3] as usize;
                  let items: Vec<Key> = (0..n).map(|i| Key::new(op[4 + 2 * i], op[5 + 2 * i])).collect();
                  let fresh: Set<Key, N> = if arr {
@@ -700,6 +801,51 @@ fn sub<const N: usize, const M: usize>(a: &Set<Key, N>, b: &Set<Key, M>, o: &mut
 const BCFG: bincode::config::Configuration<bincode::config::LittleEndian, bincode::config::Fixint> =
     bincode::config::standard().with_fixed_int_encoding();
 
+// serde's own value deserializers over an iterator whose size_hint is inexact: MapAccess/SeqAccess::size_hint
+// is None.  Objects created here are harness-internal: no events, identities rolled back.
+struct P2(u64, u64);
+impl<'de, E: serde::de::Error> serde::de::IntoDeserializer<'de, E> for P2 {
+    type Deserializer = serde::de::value::SeqDeserializer<std::array::IntoIter<u64, 2>, E>;
+    fn into_deserializer(self) -> Self::Deserializer { serde::de::value::SeqDeserializer::new([self.0, self.1].into_iter()) }
+}
+fn u64s(bytes: &[u8]) -> Vec<u64> {
+    bytes.chunks_exact(8).map(|c| u64::from_le_bytes(c.try_into().unwrap())).collect()
+}
+fn hintless_map<const N: usize>(bytes: &[u8], expect: &Map<Key, Val, N>) {
+    use serde::Deserialize;
+    let w = u64s(bytes);
+    let entries: Vec<(P2, P2)> = w[1..].chunks_exact(4).map(|c| (P2(c[0], c[1]), P2(c[2], c[3]))).collect();
+    let saved = with_ctx(|c| { let s = (c.next_id, c.in_call, c.quiet); c.in_call = false; c.quiet = 1; s });
+    let r = catch_unwind(AssertUnwindSafe(|| {
+        let de = serde::de::value::MapDeserializer::<_, serde::de::value::Error>::new(entries.into_iter().filter(|_| true));
+        Map::<Key, Val, N>::deserialize(de).map(|m| m == *expect && m.len() == expect.len())
+    }));
+    with_ctx(|c| { c.next_id = saved.0; c.in_call = saved.1; c.quiet = saved.2; });
+    match r {
+        Ok(Ok(true)) => {}
+        Ok(Ok(false)) => fault("SERDE decoding the same entries without a size hint gives a different map".into()),
+        Ok(Err(e)) => fault(format!("SERDE decoding the same entries without a size hint fails: {}", e)),
+        Err(_) => fault("SERDE decoding the same entries without a size hint panics".into()),
+    }
+}
+fn hintless_set<const N: usize>(bytes: &[u8], expect: &Set<Key, N>) {
+    use serde::Deserialize;
+    let w = u64s(bytes);
+    let entries: Vec<P2> = w[1..].chunks_exact(2).map(|c| P2(c[0], c[1])).collect();
+    let saved = with_ctx(|c| { let s = (c.next_id, c.in_call, c.quiet); c.in_call = false; c.quiet = 1; s });
+    let r = catch_unwind(AssertUnwindSafe(|| {
+        let de = serde::de::value::SeqDeserializer::<_, serde::de::value::Error>::new(entries.into_iter().filter(|_| true));
+        Set::<Key, N>::deserialize(de).map(|m| m == *expect && m.len() == expect.len())
+    }));
+    with_ctx(|c| { c.next_id = saved.0; c.in_call = saved.1; c.quiet = saved.2; });
+    match r {
+        Ok(Ok(true)) => {}
+        Ok(Ok(false)) => fault("SERDE decoding the same elements without a size hint gives a different set".into()),
+        Ok(Err(e)) => fault(format!("SERDE decoding the same elements without a size hint fails: {}", e)),
+        Err(_) => fault("SERDE decoding the same elements without a size hint panics".into()),
+    }
+}
+
 // ---------------------------------------------------------------- dispatcher
 fn target(op: &[u64]) -> Option<(bool, usize)> {
     let mr = |r: u64| r < 2;
@@ -712,7 +858,8 @@ fn target(op: &[u64]) -> Option<(bool, usize)> {
         33 if n == 2 && mr(op[1]) => Some((false, op[1] as usize)),
         34 if n == 4 && mr(op[1]) => Some((false, op[1] as usize)),
         35 if n == 3 && mr(op[1]) => Some((false, op[1] as usize)),
-        40 | 41 if n == 5 && mr(op[1]) => Some((false, op[1] as usize)),
+        40 | 41 | 42 | 44 if n == 5 && mr(op[1]) => Some((false, op[1] as usize)),
+        43 if n == 4 && mr(op[1]) => Some((false, op[1] as usize)),
         50 if n == 7 && mr(op[1]) => Some((false, op[1] as usize)),
         51 if n >= 5 && mr(op[1]) => Some((false, op[1] as usize)),
         60 | 66 if n == 3 && mr(op[1]) && mr(op[2]) => Some((false, op[2] as usize)),
@@ -722,7 +869,7 @@ fn target(op: &[u64]) -> Option<(bool, usize)> {
         110 | 111 if n == 4 && sr(op[1]) => Some((true, op[1] as usize - 2)),
         122 | 123 | 130 | 131 | 132 if sr(op[1]) => Some((true, op[1] as usize - 2)),
         133 if n == 2 && sr(op[1]) => Some((true, op[1] as usize - 2)),
-        134 | 141 if n == 4 && sr(op[1]) => Some((true, op[1] as usize - 2)),
+        134 | 141 | 142 | 143 | 144 if n == 4 && sr(op[1]) => Some((true, op[1] as usize - 2)),
         135 if n >= 3 && sr(op[1]) => Some((true, op[1] as usize - 2)),
         140 if n == 3 && sr(op[1]) => Some((true, op[1] as usize - 2)),
         160 | 166 if n == 3 && sr(op[1]) && sr(op[2]) => Some((true, op[2] as usize - 2)),
@@ -740,7 +887,12 @@ fn do_op(w: &mut World, op: &[u64], o: &mut Out) {
         60 => { let fresh = w.m[op[1] as usize].clone_reg();
                 let old = mem::replace(&mut w.m[op[2] as usize], fresh); drop(old); }
         61 => { let (a, b) = (&w.m[op[1] as usize], &w.m[op[2] as usize]);
-                let r = with_mr!(a, x => with_mr!(b, y => counted(|| x == y))); o.push(r as u64); }
+                let r = with_mr!(a, x => with_mr!(b, y => counted(|| x == y))); o.push(r as u64);
+                // `!=` must be the negation of `==` (asked with honest, uncounted comparisons)
+                quiet(true);
+                let (e, n) = with_mr!(a, x => with_mr!(b, y => (x == y, x != y)));
+                quiet(false);
+                if e == n { fault(format!("NE_INCONSISTENT a == b is {} and a != b is {} on the same maps", e, n)); } }
         66 => { let bytes = with_mr!(&w.m[op[1] as usize], a => {
                     let bytes = bincode::serde::encode_to_vec(a, BCFG).expect("encode");
                     let announced = u64::from_le_bytes(bytes[0..8].try_into().unwrap());
@@ -751,11 +903,17 @@ fn do_op(w: &mut World, op: &[u64], o: &mut Out) {
                     fn dec<const N: usize>(bytes: &[u8], _m: &Map<Key, Val, N>) -> Map<Key, Val, N> {
                         bincode::serde::decode_from_slice::<Map<Key, Val, N>, _>(bytes, BCFG).expect("decode").0 }
                     let fresh = dec(&bytes, b);
+                    // the same entries through a deserializer that gives NO size hint must decode to an equal map
+                    hintless_map(&bytes, &fresh);
                     let old = mem::replace(b, fresh); drop(old); }); }
         160 => { let fresh = w.s[op[1] as usize - 2].clone_reg();
                  let old = mem::replace(&mut w.s[op[2] as usize - 2], fresh); drop(old); }
         161 => { let (a, b) = (&w.s[op[1] as usize - 2], &w.s[op[2] as usize - 2]);
-                 let r = with_sr!(a, x => with_sr!(b, y => counted(|| x == y))); o.push(r as u64); }
+                 let r = with_sr!(a, x => with_sr!(b, y => counted(|| x == y))); o.push(r as u64);
+                 quiet(true);
+                 let (e, n) = with_sr!(a, x => with_sr!(b, y => (x == y, x != y)));
+                 quiet(false);
+                 if e == n { fault(format!("NE_INCONSISTENT a == b is {} and a != b is {} on the same sets", e, n)); } }
         166 => { let bytes = with_sr!(&w.s[op[1] as usize - 2], a => {
                     let bytes = bincode::serde::encode_to_vec(a, BCFG).expect("encode");
                     let announced = u64::from_le_bytes(bytes[0..8].try_into().unwrap());
@@ -766,6 +924,7 @@ fn do_op(w: &mut World, op: &[u64], o: &mut Out) {
                     fn dec<const N: usize>(bytes: &[u8], _m: &Set<Key, N>) -> Set<Key, N> {
                         bincode::serde::decode_from_slice::<Set<Key, N>, _>(bytes, BCFG).expect("decode").0 }
                     let fresh = dec(&bytes, b);
+                    hintless_set(&bytes, &fresh);
                     let old = mem::replace(b, fresh); drop(old); }); }
         170 => { let (a, b) = (&w.s[op[2] as usize - 2], &w.s[op[3] as usize - 2]);
                  with_sr!(a, x => with_sr!(b, y => alg(x, y, op[1], op[4], op[5], o))); }
